@@ -137,3 +137,14 @@ Require Copia.Proofs.TieBisyncRun.
 Theorem C15_run_is_translation_of_source : TieBisyncRun.bisync_run_is_translation.
 Proof. exact TieBisyncRun.bisync_run_is_translation_holds. Qed.
 Print Assumptions C15_run_is_translation_of_source.
+
+(** The local recursive run as a PROGRAM is the translation of incremental.rs `run_local` as the source has it now (the
+    "no files" exit, the plan from build_plan on the two scans, the dry-run exit before anything is touched, the "up to
+    date" exit, one spawned deliver_local per path of plan.transfer with the source's scanned mtime, the join, and only
+    then the removal of plan.delete, the report), and [run_oneway] of the theorems above is its meaning: the same exit
+    kind and plan, deliveries = plan.transfer, deletes = plan.delete after the join (Gen/OneWayRunGen.v,
+    Proofs/TieOneWayRun.v). *)
+Require Copia.Proofs.TieOneWayRun.
+Theorem C15_local_run_is_translation_of_source : TieOneWayRun.oneway_run_is_translation.
+Proof. exact TieOneWayRun.oneway_run_is_translation_holds. Qed.
+Print Assumptions C15_local_run_is_translation_of_source.
